@@ -339,18 +339,18 @@ PROPS['C13'] = {
 
 PROPS['C12'] = {
     'level': 'exploration',
-    'level_text': 'Bounded stand-in (not a proof): the contract "boxes ordered by offset, non-overlapping, inside the file, covering every byte" is evaluated on the real PngIO::get_box_map '
-                  'for every stream of a small PNG grammar (1..=3(4) chunks x 6 chunk types x 0..=2 data bytes x 0..=3 trailing bytes x truncations), on the sidecar handler for lengths 0..=64, '
+    'level_text': 'Bounded stand-in (not a proof): the contract "boxes ordered by offset, non-overlapping, inside the file, covering every byte" is evaluated on the real get_box_map of the PNG, JPEG, GIF and JPEG XL handlers '
+                  'for every stream of a small grammar per format (PNG: (1..=3(4) chunks x 6 chunk types x 0..=2 data bytes x 0..=3 trailing bytes x truncations), on the sidecar handler for lengths 0..=64, '
                   'and on fixture files of JPEG/GIF/PNG/JPEG XL with bytes appended. The chunk scanner (byteorder reads, String::from_utf8, io::Error drops) timed out in CBMC twice and is outside Verus.',
     'level_note': 'trailing-bytes findings recorded in KNOWN_FINDINGS.txt (S5); JPEG/GIF/JXL parsers only on fixtures; data-hash regions (get_object_locations_from_stream) not covered.',
     'technique': TECH_B,
-    'parts': [B('native:box_maps', 'sdk', [T('c12_png_box_map_small_grammar'), T('c12_jxl_box_map_small_grammar'), T('c12_jpeg_box_map_small_grammar'), T('c12_sidecar_box_map'), T('c12_fixture_box_maps')],
+    'parts': [B('native:box_maps', 'sdk', [T('c12_png_box_map_small_grammar'), T('c12_jxl_box_map_small_grammar'), T('c12_jpeg_box_map_small_grammar'), T('c12_gif_box_map_small_grammar'), T('c12_sidecar_box_map'), T('c12_fixture_box_maps')],
                 functions=[('sdk/src/asset_handlers/png_io.rs', 'get_png_chunk_positions'), ('sdk/src/asset_handlers/png_io.rs', 'get_box_map', r'impl AssetBoxHash for PngIO \{'),
                            ('sdk/src/asset_handlers/c2pa_io.rs', 'get_box_map', r'impl AssetBoxHash for C2paIO \{')],
                 bounds='PNG grammar: 1..=3 chunks (thorough 4), 6 types, 0..=2 data bytes, 0..=3 trailing bytes, 4 truncation points (thorough: all)')],
     'trusted_base': ['rustc', 'the contract function box_map_contract in kani/png_io.rs'],
     'rule': 'one evaluation = one byte stream given to the real get_box_map; non-trivial = accepted stream that is truncated or has trailing bytes',
-    'not_covered': ['JPEG (jfifdump), GIF, JPEG XL parsers beyond fixtures', 'CAIWriter::get_object_locations_from_stream (data-hash regions)', 'restart markers / multiple images'],
+    'not_covered': ['streams outside the four small grammars', 'CAIWriter::get_object_locations_from_stream for formats other than PNG', 'multiple images in one JPEG'],
 }
 
 PROPS['C01'] = {
